@@ -1,34 +1,6 @@
 import threading
 
-
-class Deferred(object):
-    """Completion handle: `called`, `result`, `addCallback` (runs at once if already completed)."""
-
-    def __init__(self):
-        self.called = False
-        self.result = None
-        self._callbacks = []
-        self._lock = threading.Lock()
-        self.done = threading.Event()
-
-    def addCallback(self, f, *a, **kw):
-        with self._lock:
-            if not self.called:
-                self._callbacks.append((f, a, kw))
-                return self
-        self.result = f(self.result, *a, **kw)
-        return self
-
-    addBoth = addCallback
-
-    def _fire(self, result):
-        with self._lock:
-            self.result = result
-            self.called = True
-            cbs, self._callbacks = self._callbacks, []
-        for f, a, kw in cbs:
-            self.result = f(self.result, *a, **kw)
-        self.done.set()
+from .defer import Deferred  # noqa: F401
 
 
 def deferToThreadPool(reactor, threadpool, f, *args, **kwargs):
